@@ -249,6 +249,13 @@ static void apply_set(struct endp *e, const struct setop *op, int lp, int pendin
             snprintf(sig, sizeof sig, "C11/creation-only-changed/%s/at=%s/tp=%s", a->name, LPN[lp], g_tp);
             V(sig, "%s: %s is writable only at creation; xcm_attr_set(%s) at '%s' returned %d/%s and the attribute now reads %s",
               e->who, a->name, vs, LPN[lp], rc, errname(err), gs);
+        } else if (rc == 0 && !(had_before && val_eq(&before, &v)) &&
+                   !(!strcmp(a->name, "xcm.service") && !strcmp(v.s, "any"))) {
+            /* accepted although it is not a no-op: "refused afterwards" is part of the documented contract, and a
+               value that is stored without taking effect misleads the next reader of the code or of the log */
+            snprintf(sig, sizeof sig, "C11/creation-only-accepted-later/%s/at=%s/tp=%s", a->name, LPN[lp], g_tp);
+            V(sig, "%s: %s is writable only at creation; xcm_attr_set(%s) at '%s' returned 0 (the attribute reads %s before and after)",
+              e->who, a->name, vs, LPN[lp], gs);
         } else if (rc < 0 && err != EACCES && err != EINVAL) {
             snprintf(sig, sizeof sig, "C11/creation-only-wrong-errno/%s/%s/tp=%s", a->name, errname(err), g_tp);
             V(sig, "%s: set of creation-only %s at '%s' failed with %s (EACCES documented)", e->who, a->name, LPN[lp],
